@@ -61,6 +61,8 @@
 (*  (e) table     e_keys, e_count, e_times   one entry per address among    *)
 (*                ALL records that left the dedup stage (the table is       *)
 (*                updated BEFORE the filters), count, first/last (whole s)  *)
+(*  (t) history   t_filter, t_history   /track (TrackViolations below)        *)
+(*  (s) sensors   s_reference           /sensors (SensorViolations below)    *)
 (* Every clause is closed under taking a prefix of the printed output, so   *)
 (* records still pending when the program is killed are allowed.            *)
 (*                                                                         *)
@@ -239,6 +241,65 @@ ClauseNames == {"a_payload", "a_order", "b_once", "b_shape", "b_window", "b_spli
 Violations(In, W, Skew, cfg, recs, tab, stable) ==
   IF Invented(In, recs) THEN {"a_invented"}
   ELSE LET c == Clauses(In, W, Skew, cfg, recs, tab, stable) IN {nm \in ClauseNames : ~c[nm]}
+
+(* ------------------------------------------------------------------------ *)
+(* /track?icao24=a : the history of an aircraft (snapshot.rs store_history,  *)
+(* called after the filters and after the line is printed).                  *)
+(*   tracks : sequence of [icao |-> a, h |-> sequence of [df, icao, tu, m]]  *)
+(*            for the addresses that were queried                            *)
+(*  t_filter   every element of a history is a record of receptions that     *)
+(*             were sent, of ONE frame that decodes, is of a stored format    *)
+(*             (DF17/18/20/21), shows that address and passes the filters     *)
+(*  t_history  no element twice; every printed record of a stored format      *)
+(*             that is FOLLOWED by another printed record (so that the main   *)
+(*             loop has certainly finished with it) is in the history of its  *)
+(*             address, and such records appear there in print order          *)
+(* Both are closed under taking a prefix of the printed output.               *)
+(* ------------------------------------------------------------------------ *)
+StoredDF == {17, 18, 20, 21}
+TrackViolations(In, cfg, recs, tracks) ==
+  LET Known(mm) == mm.rx \in DOMAIN In /\ PosOf(In, mm.rx, mm.id) # {}
+      PayOf(mm) == Payload(In[mm.rx][CHOOSE p \in PosOf(In, mm.rx, mm.id) : TRUE].fr)
+      ElemOk(a, el) ==
+        /\ Len(el.m) >= 1 /\ \A j \in DOMAIN el.m : Known(el.m[j])
+        /\ LET pay == PayOf(el.m[1]) IN
+           /\ \A j \in DOMAIN el.m : PayOf(el.m[j]) = pay
+           /\ WellFormedPayload(pay)
+           /\ ShownDF(pay) \in StoredDF /\ el.df = ShownDF(pay)
+           /\ AddrOf(pay) = a /\ el.icao = a
+           /\ KeepPayload(cfg, pay)
+      Key(m) == [j \in DOMAIN m |-> <<m[j].rx, m[j].id>>]
+      Queried(a) == {x \in DOMAIN tracks : tracks[x].icao = a}
+      HistOf(a) == tracks[CHOOSE x \in Queried(a) : TRUE].h
+      Stored(n) == LET f == recs[n].frame IN Len(f) \in {7, 14} /\ CarriesAddress(f) /\ ShownDF(f) \in StoredDF
+      Where(n) == LET h == HistOf(AddrOf(recs[n].frame)) IN
+                  {y \in DOMAIN h : Key(h[y].m) = Key(recs[n].m) /\ h[y].tu = recs[n].tu}
+      Due == {n \in 1..(Len(recs) - 1) : Stored(n) /\ Queried(AddrOf(recs[n].frame)) # {}}
+      t_filter == \A x \in DOMAIN tracks : \A y \in DOMAIN tracks[x].h : ElemOk(tracks[x].icao, tracks[x].h[y])
+      t_history ==
+        /\ \A x \in DOMAIN tracks : \A y1, y2 \in DOMAIN tracks[x].h :
+              y1 # y2 => Key(tracks[x].h[y1].m) # Key(tracks[x].h[y2].m)
+        /\ \A n \in Due : Where(n) # {}
+        /\ \A n1, n2 \in Due : (n1 < n2 /\ AddrOf(recs[n1].frame) = AddrOf(recs[n2].frame)
+                                  /\ Where(n1) # {} /\ Where(n2) # {}) => MinOf(Where(n1)) < MinOf(Where(n2))
+  IN (IF t_filter THEN {} ELSE {"t_filter"}) \cup (IF t_history THEN {} ELSE {"t_history"})
+
+(* ------------------------------------------------------------------------ *)
+(* /sensors : every source is listed (by its serial number) with the         *)
+(* reference position of its specification, or none.                         *)
+(*   refs : receiver -> [has, lat, lon] (micro-degrees) as specified          *)
+(*   sens : sequence of [rx (0: its serial was never seen in a record), has,  *)
+(*          lat, lon] as served                                               *)
+(* ------------------------------------------------------------------------ *)
+SensorViolations(refs, sens) ==
+  LET Abs(v) == IF v < 0 THEN -v ELSE v
+      Same(x, y) == x.has = y.has /\ (y.has => (Abs(x.lat - y.lat) <= 1 /\ Abs(x.lon - y.lon) <= 1))
+      ok == /\ Len(sens) = Len(refs)
+            /\ \A x \in DOMAIN sens : sens[x].rx # 0 => (sens[x].rx \in DOMAIN refs /\ Same(sens[x], refs[sens[x].rx]))
+            /\ \A x1, x2 \in DOMAIN sens : (x1 # x2 /\ sens[x1].rx # 0) => sens[x1].rx # sens[x2].rx
+            /\ \A r \in DOMAIN refs : Cardinality({x \in DOMAIN sens : Same(sens[x], refs[r])})
+                                        = Cardinality({q \in DOMAIN refs : Same(refs[q], refs[r])})
+  IN IF ok THEN {} ELSE {"s_reference"}
 
 PipelineAbs(In, W, Skew, cfg, recs, tab, stable) == Violations(In, W, Skew, cfg, recs, tab, stable) = {}
 =============================================================================
